@@ -22,6 +22,16 @@ Case vf_generate() {
         size_t s = p.name.find('/');
         if (s != std::string::npos && p.name.find('#') == std::string::npos) p.name.erase(s, 1);
       }
+  // multi-component sub-tree names (a#3/b#2/c/) with a harness-made recursion callback
+  for (int t = 0; t < 5; t++)
+    for (auto &p : c.tree.tables[(size_t)t].ports)
+      if (p.kind == pt::RECUR && vf::chance(40)) {
+        p.kind = pt::MULTI;
+        std::string n;
+        int comps = vf::pick<int>(2, 3);
+        for (int k = 0; k < comps; k++) { n += pt::gen_stem(0); if (vf::chance(50)) n += "#" + std::to_string(vf::pick<int>(1, 3)); n += "/"; }
+        p.name = n;
+      }
   pt::decorate_enabled(c.tree);
   c.runtime = vf::chance(60);
   if (vf::chance(30)) c.prefix = "/" + vf::strover("xyz", 1, 3) + "/";
@@ -118,7 +128,9 @@ std::string vf_run(const Case &c, vf::Ctx &ctx) {
   }
   ctx.count("reports", got.size());
   ctx.count("dispatched_back", dispatched);
-  bool deep_enum = false, skipped = false;
+  bool deep_enum = false, skipped = false, multi = false;
+  for (auto &tb : c.tree.tables) for (auto &p : tb.ports) if (p.kind == pt::MULTI) multi = true;
+  if (multi) ctx.count("class.multi_component_subtree_name");
   for (int t = 1; t < 9; t++) for (auto &p : c.tree.tables[(size_t)t].ports) if (p.name.find('#') != std::string::npos) deep_enum = true;
   if (c.runtime) {
     std::vector<pt::Instance::Report> stat;
